@@ -114,8 +114,9 @@ def _step(u, failure_class):
     same_tensor(u, "step.visited", out["visited"], (B, N + 1, 1),
                 lambda bb, jj, _: ite(zint(jj) == pre["action"].at(bb), 1, pre["visited"].at(bb, jj, 0)), tags=("C01",))
     same_tensor(u, "step.current_node", out["current_node"], (B, 1), lambda bb, _: pre["action"].at(bb), tags=("C01",))
-    same_tensor(u, "step.current_tech", out["current_tech"], (B, 1),
-                lambda bb, _: pre["current_tech"].at(bb, 0) + ite(pre["action"].at(bb) == 0, 1, 0), tags=("C01",))
+    # a depot visit hands over to the next technician; the last technician stays in charge (padding steps of a finished row)
+    nxt = lambda bb: pre["current_tech"].at(bb, 0) + ite(pre["action"].at(bb) == 0, 1, 0)
+    same_tensor(u, "step.current_tech", out["current_tech"], (B, 1), lambda bb, _: ite(nxt(bb) <= K - 1, nxt(bb), K - 1), tags=("C01",))
     allv = u.forall((N + 1,), lambda k: out["visited"].at(b, k, 0) == 1)
     u.prove("step.done.iff", out["done"].at(b, 0) == allv, tags=("C01", "C02"))
     u.prove("step.inv", state_ok(u, out, B, N, K), tags=("C01", "C02"))
